@@ -6,7 +6,9 @@ bool that compares the two observed models IN COQ by denotation over all subscri
 rationals, tolerance tol8 = 1e-8 relative to the largest base entry), plus fit / iteration count.
 
 ops:  <pair>.<alg>   pair in {repr, print, seed, scale, relabel};
-      alg in {cp_als, cp_apr_mu, cp_apr_pdnr, cp_apr_pqnr, hosvd, tucker_als, gcp}  (gcp = gcp_opt + LBFGSB)."""
+      alg in {cp_als, cp_apr_mu, cp_apr_pdnr, cp_apr_pqnr, hosvd, tucker_als, gcp}  (gcp = gcp_opt + LBFGSB);
+      print.static = one source scan of the drivers (tools/props/c18_static.py): what is evaluated / assigned only when printing must be
+      the pinned table - the trusted base of the print theorems over the generated skeletons (Props/C18W5.v, Props/C18W5b.v)."""
 import math
 from fractions import Fraction
 
@@ -17,9 +19,9 @@ from props import c18_static as S
 
 PROP = "C18"
 LEVEL = "proof"
-GEN_UNITS = []
-COQ_TARGETS = ["Props/C18.vo", "Props/C18Perm.vo", "Props/C18Rows.vo", "Props/C18W4.vo", "Props/C18W4H.vo", "Props/C18W4O.vo", "Props/C18W4S.vo", "Model/C18Cmp.vo", "Model/Harness.vo"]
-THEOREM_FILES = ["Props/C18.v", "Props/C18Perm.v", "Props/C18Rows.v", "Props/C18W4.v", "Props/C18W4H.v", "Props/C18W4O.v", "Props/C18W4S.v"]
+GEN_UNITS = ["GenCpAls", "GenTuckerAls", "GenHosvd", "GenCpAprMu", "GenSolver", "GenHosvdFull"]     # wave 5: Props/C18W5.v states print-independence over the generated control-flow skeletons (tools/pyx2v_skel.py, owned by w5-skel, read-only)
+COQ_TARGETS = ["Props/C18.vo", "Props/C18Perm.vo", "Props/C18Rows.vo", "Props/C18W4.vo", "Props/C18W4H.vo", "Props/C18W4O.vo", "Props/C18W4S.vo", "Props/C18W5.vo", "Props/C18W5b.vo", "Props/C18W5c.vo", "Proofs/C18GenPrintExamples.vo", "Model/C18Cmp.vo", "Model/Harness.vo"]
+THEOREM_FILES = ["Props/C18.v", "Props/C18Perm.v", "Props/C18Rows.v", "Props/C18W4.v", "Props/C18W4H.v", "Props/C18W4O.v", "Props/C18W4S.v", "Props/C18W5.v", "Props/C18W5b.v", "Props/C18W5c.v"]
 COQ_IMPORTS = ("From Coq Require Import List ZArith Bool QArith Qcanon.\n"
                "From PV Require Import Base.Index Np.Array Model.Sparse Model.Repr Model.Harness Model.C18Cmp.\n")
 SHARD = 16          # quick tier (247 evaluated pairs): 16 shards = one round on 16 cores; ~1.3 s of library loading per shard
@@ -47,6 +49,10 @@ PAIRS = {
 # wave 4 (Props/C18W4.v, Props/C18W4H.v): repr for cp_apr_mu on the C11 numerical model (sparse Pi / Phi branch = dense branch through
 # the whole loop) + the print driver bridged to that model; Tucker-ALS's upd_perm / A_perm contracts discharged on dense holders;
 # relabel for the transliterated hosvd driver (rank rule, IndexError path, sequential or not) on dense holders.
+# wave 5 (Props/C18W5.v): the printing clause over the translator-GENERATED skeletons of cp_als / tucker_als / tt_cp_apr_mu /
+# StochasticSolver.solve (the generated function returns the same result for any two printing settings, all kernels arbitrary; cp_als: the
+# final fit recomputation characterised exactly) and bridges of the hand print drivers of hosvd / tucker_als to the generated loops for
+# every verbosity. Trusted there: the arguments of dropped print calls (pinned + scanned on every run: op print.static, c18_static.py).
 # Still correspondence-only: repr for cp_apr_pdnr / cp_apr_pqnr (row solvers' numerics are oracles in the C11 rows model), repr.hosvd and
 # repr.gcp (memory-layout pairs only: both reject sparse data; layout is not part of any model), every seed.* (numpy's generator and the
 # absence of further draws inside the algorithms are not modelled).
@@ -79,7 +85,12 @@ RULE = ("metamorphic pairs of real runs, maxiters <= 5, <= 36 cells, ranks 1-2: 
         "(+ a print / a holder pair) with optdims a STRICT SUBSET of the modes (>= 2 optimised modes, N >= 3), an explicit dimorder "
         "whose restriction to optdims is descending or shuffled, >= 2 sweeps, under a relabelling that reverses the relative position "
         "of two optimised modes (a filter of dimorder that sorts it shows up on one side only); cp_apr's second verbosity setting "
-        "printinneritn (mu / pdnr / pqnr): pairs of (printitn, printinneritn) from (0,0),(0,1),(1,1),(1,0),(1,3),(2,1),(0,2),(5,2). Data: integer "
+        "printinneritn (mu / pdnr / pqnr): pairs of (printitn, printinneritn) from (0,0),(0,1),(1,1),(1,0),(1,3),(2,1),(0,2),(5,2). wave 5: EXTREME scales 2^-60 .. 2^60 (cp_als / tucker_als / hosvd: "
+        "Frobenius norms far below / above every absolute default tolerance, >= 3 sweeps allowed, dense and sparse holders); the holder's "
+        "VALUE DTYPE: dense float64 vs a sparse holder storing int64 / int32 / bool values and vs a dense holder of that dtype (cp_als, "
+        "tucker_als, cp_apr mu / pdnr / pqnr; bool: 0/1 data); the regression input of the repaired finding C18-PQNR-PRINT; one static "
+        "case print.static (source scan of the nine drivers: calls / assignments that happen only when printing must be the pinned ones). "
+        "Data: integer "
         "low-rank-plus-noise (counts for cp_apr), with zero entries, and for cp_apr an optional all-zero slice; every mode-n "
         "unfolding has exact rank >= the requested rank (checked with Fractions in the generator), Tucker ranks satisfy "
         "r_n <= prod of the others, start columns are not nearly parallel (exact Gram-determinant test) - so the sub-problems are "
@@ -87,7 +98,7 @@ RULE = ("metamorphic pairs of real runs, maxiters <= 5, <= 36 cells, ranks 1-2: 
         "cut of every mode-n Gram matrix and 'nvecs' starts are generated only for rank <= every mode size with separated leading "
         "Gram eigenvalues (a repeated eigenvalue makes eigsh / ARPACK, whose start vector numpy's seed does not drive, return a "
         "different subspace on every call: two IDENTICAL calls then disagree). Quick tier: every class once or twice (about 200 "
-        "pairs); thorough: 10 x the full count tables (about 2.8k pairs). cp_apr PQNR cases where pyttb raises its own L-BFGS assertion identically under "
+        "pairs); thorough: 10 x the full count tables (about 3.4k pairs). cp_apr PQNR cases where pyttb raises its own L-BFGS assertion identically under "
         "both presentations are skipped; 'nvecs' starts are not generated on sparse data (open findings A-38 / C09-NVECS-SPARSE: "
         "sptensor.nvecs returns complex vectors). non-trivial = data not all-equal and, for relabel, a non-identity permutation; "
         "distinct = distinct (op, both run descriptions)")
@@ -401,7 +412,7 @@ def _nvecs_ok(b):
 FAR_SCALES = [2.0 ** -24, 2.0 ** -17, 2.0 ** 24, 2.0 ** -20, 2.0 ** -30, 2.0 ** 30]      # wave 4: + 2^30 (hosvd quick: each once)
 
 
-XSCALES = [2.0 ** -45, 2.0 ** 45, 2.0 ** -36, 2.0 ** -40, 2.0 ** 40, 2.0 ** -33]        # wave 5: far below / above every absolute default tolerance
+XSCALES = [2.0 ** -45, 2.0 ** 60, 2.0 ** -60, 2.0 ** 45, 2.0 ** -36, 2.0 ** -52, 2.0 ** 52, 2.0 ** -33]   # wave 5: far below / above every absolute default tolerance
 
 
 def gen_binary(rng, shape, rank, ok=None):
@@ -666,7 +677,7 @@ def gen_cases(rng, tier):
         t = dict(REGRESSION_PQNR_PRINT)
         t["printitn"] = pr
         cases.append(_mk("print", "cp_apr_pqnr", dict(REGRESSION_PQNR_PRINT), t, extra={"regression": "C18-PQNR-PRINT"}))
-    # 12. (wave 5) EXTREME scales 2^-45 .. 2^45 (exact in floats; squared norms down to 1e-25 / up to 1e+30 are far inside the double
+    # 12. (wave 5) EXTREME scales 2^-60 .. 2^60 (exact in floats; squared norms down to 1e-35 / up to 1e+39 are far inside the double
     #     range): data whose Frobenius norm is far below every absolute tolerance numpy offers by default (np.isclose / allclose atol
     #     1e-8, eps-sized floors) or far above 1 - an "is the norm zero" / "did the fit change" test written with an absolute
     #     tolerance acts on one side of the pair only. >= 3 sweeps allowed and a stopping tolerance that does not fire at once on
@@ -680,7 +691,7 @@ def gen_cases(rng, tier):
             b["printitn"] = (0, 0, 1)[j % 3]
             if alg != "hosvd" and j % 3 == 1:
                 b = to_sparse(rng, b, "random")
-            cases.append(_scaled(b, XSCALES[(j + (0 if alg == "cp_als" else 1 if alg == "tucker_als" else 2)) % len(XSCALES)]))
+            cases.append(_scaled(b, XSCALES[(j + (0 if alg == "cp_als" else 2 if alg == "tucker_als" else 4)) % len(XSCALES)]))
     # 13. (wave 5) the holder's VALUE DTYPE (op repr.<alg>, flag dtype): the same integer (count) data in a dense float64 tensor and in
     #     a SPARSE tensor whose stored values are int64 / int32 / bool (sptensor keeps the dtype it is given: counts built from integer
     #     arrays, indicator data), and - dense twin - in a dense tensor of that dtype. Anything allocated "in the dtype of the values"
@@ -698,10 +709,12 @@ def gen_cases(rng, tier):
             if alg == "cp_apr_pqnr":
                 b["opts"].update({"maxiters": 1, "maxinneriters": 1})        # outside the regime of the open finding C18-PQNR-TIE
             t = to_sparse(rng, b, ("random", "sorted", "reversed")[j % 3])
-            if alg in ("cp_als", "tucker_als") and j % 4 == 3:
-                t = dict(b)                                                   # dense twin: a dense tensor of that dtype
             t["dtype"] = dt
             cases.append(_mk("repr", alg, b, t, extra={"order": "dtype", "zero_slice": False, "dtype": dt}))
+            if j % 2 == 1 or alg.startswith("cp_apr_"):
+                t = dict(b)                                                   # dense twin: a dense tensor of that dtype
+                t["dtype"] = dt
+                cases.append(_mk("repr", alg, b, t, extra={"order": "dtype", "zero_slice": False, "dtype": dt, "dense_twin": True}))
     # 14. (wave 5) STATIC scan of the drivers' source (op print.static, tools/props/c18_static.py): the calls evaluated only because of
     #     printing (arguments of print / logging / warnings calls, statements under a verbosity test) and the variables assigned under a
     #     verbosity test must be the pinned ones - the part of the printing clause that the skeleton translator's drop rule takes on
